@@ -17,9 +17,11 @@ import (
 	"fmt"
 	"os"
 	"strings"
+	"sync"
 	"testing"
 
 	"github.com/mgtv-tech/redis-GunYu/config"
+	redispkg "github.com/mgtv-tech/redis-GunYu/pkg/redis"
 	"github.com/mgtv-tech/redis-GunYu/pkg/vfutil"
 )
 
@@ -76,7 +78,7 @@ func vfC14RebuildCase(s *vfutil.Session, tag int, snap *BisyncFrontierSnapshot, 
 	if got.UnitSeq < base {
 		s.Violate("rebuild-before-snapshot", fmt.Sprintf("result seq %d < snapshot seq %d", got.UnitSeq, base), rep)
 	}
-	for m := base + 1; m <= got.UnitSeq; m++ {
+	for m := base + 1; m <= got.UnitSeq && m > base; m++ { // (m > base: no wrap-around at the top of int64)
 		if len(have[m]) == 0 {
 			s.Violate("rebuild-passes-missing-seq", fmt.Sprintf("result seq %d but seq %d is in no record (snapshot seq %d)", got.UnitSeq, m, base), rep)
 			break
@@ -97,7 +99,7 @@ func vfC14RebuildCase(s *vfutil.Session, tag int, snap *BisyncFrontierSnapshot, 
 	} else {
 		s.Count("rebuild_stays")
 	}
-	if len(have[got.UnitSeq+1]) > 0 && len(recs) > 0 {
+	if got.UnitSeq < 9223372036854775807 && len(have[got.UnitSeq+1]) > 0 && len(recs) > 0 {
 		s.Violate("rebuild-stops-early", fmt.Sprintf("seq %d present but result stops at %d", got.UnitSeq+1, got.UnitSeq), rep)
 	}
 }
@@ -152,6 +154,37 @@ func TestVerifC14Rebuild(t *testing.T) {
 		}
 		return
 	}
+	// FIRST USE of the process-global slot-tag cache (bisyncSlotTagCache / Once / table) under concurrency: this is the
+	// first call of BisyncSlotTag in this process; 8 goroutines ask for every slot in different orders, every answer
+	// must be a tag whose "{tag}" hashes to the slot, and all must agree (journal / latest keys are built from it)
+	{
+		const G = 8
+		var wg sync.WaitGroup
+		res := make([][]string, G)
+		for g := 0; g < G; g++ {
+			wg.Add(1)
+			go func(g int) {
+				defer wg.Done()
+				out := make([]string, 16384)
+				for i := 0; i < 16384; i++ {
+					sl := (i*(2*g+1) + g*977) % 16384
+					out[sl] = BisyncSlotTag(uint16(sl))
+				}
+				res[g] = out
+			}(g)
+		}
+		wg.Wait()
+		for sl := 0; sl < 16384; sl++ {
+			for g := 0; g < G; g++ {
+				if res[g][sl] != res[0][sl] || int(redispkg.KeyToSlot("{"+res[g][sl]+"}")) != sl {
+					s.Violate("slot-tag-first-use-race", fmt.Sprintf("slot %d: goroutine %d got tag %q, goroutine 0 %q", sl, g, res[g][sl], res[0][sl]), map[string]interface{}{"slot": sl})
+					sl = 16384
+					break
+				}
+			}
+		}
+		s.Count("global_slot_tags_first_use_concurrent")
+	}
 	for _, l := range vfutil.Corpus("C14") {
 		if strings.HasPrefix(l, "c14r ") {
 			vfC14RebuildOp(s, l, tag, "corpus")
@@ -179,6 +212,40 @@ func TestVerifC14Rebuild(t *testing.T) {
 			vfC14RebuildCase(s, tag, snap, sub, "exhaustive")
 			tag++
 			vfC14RebuildCase(s, tag, snap, rev, "exhaustive")
+			tag++
+		}
+	}
+	// degenerate but legal inputs, forced (not left to chance): sequence numbers at the top of int64 (nextSeq++ wraps),
+	// a snapshot AT the top, offsets 0 / max, equal mtimes of duplicates (the first filed stays), mtime 0 and negative,
+	// only non-positive numbers behind no snapshot (minSeq stays 0), one record, the snapshot's own number again
+	{
+		const mx = int64(9223372036854775807)
+		R := func(seq, off, mt int64, rid string) *BisyncCommitRecord {
+			return &BisyncCommitRecord{UnitSeq: seq, EndOffset: off, StartOffset: off, MTime: mt, RunID: rid, Version: config.Version}
+		}
+		S := func(seq, off, mt int64) *BisyncFrontierSnapshot {
+			return &BisyncFrontierSnapshot{RunID: "r", UnitSeq: seq, Offset: off, MTime: mt, Version: config.Version}
+		}
+		forced := []struct {
+			snap *BisyncFrontierSnapshot
+			recs []*BisyncCommitRecord
+		}{
+			{S(mx-2, 10, 1), []*BisyncCommitRecord{R(mx, 30, 1, "r"), R(mx-1, 20, 1, "r")}},
+			{S(mx, 10, 1), []*BisyncCommitRecord{R(1, 5, 1, "r"), R(mx, 10, 2, "r")}},
+			{S(mx-1, 10, 1), []*BisyncCommitRecord{R(mx, mx, mx, "r")}},
+			{nil, []*BisyncCommitRecord{R(1, 0, 0, "r"), R(2, mx, -5, "r")}},
+			{S(0, 0, 0), []*BisyncCommitRecord{R(1, 0, 0, ""), R(2, 0, 0, "")}},
+			{S(3, 30, 7), []*BisyncCommitRecord{R(4, 40, 5, "a"), R(4, 41, 5, "b"), R(4, 42, 5, "c"), R(5, 50, 5, "r")}},
+			{S(3, 30, 7), []*BisyncCommitRecord{R(4, 42, 5, "c"), R(4, 41, 6, "b"), R(4, 40, 6, "a")}},
+			{nil, []*BisyncCommitRecord{R(0, 5, 1, "r"), R(-1, 6, 1, "r")}},
+			{S(0, 0, 0), []*BisyncCommitRecord{R(0, 5, 1, "r")}},
+			{nil, []*BisyncCommitRecord{R(1, 1, 1, "r")}},
+			{S(5, 50, 1), []*BisyncCommitRecord{R(5, 51, 9, "x")}},
+			{S(5, 50, 1), []*BisyncCommitRecord{R(5, 51, 9, "x"), R(6, 60, 0, "r"), R(6, 61, 0, "q")}},
+			{S(-3, 1, 1), []*BisyncCommitRecord{R(-2, 2, 1, "r"), R(1, 3, 1, "r")}},
+		}
+		for _, f := range forced {
+			vfC14RebuildCase(s, tag, f.snap, f.recs, "degenerate")
 			tag++
 		}
 	}
